@@ -1,18 +1,37 @@
 (* C14 — to_thread.run_sync: faithful results, bounded threads, cancellation handled (PARTIAL: the OS thread
    is an oracle — ops ThreadStart / ThreadFinish w payload / ThreadReturn w / ThreadCheckCancelled / ThreadRunAsync, and SpawnFail /
    NativeCancel on the caller's side, are chosen by the environment).
-   This file contains only statements closed by `exact` and their Print Assumptions. *)
+   This file contains only statements closed by `exact` and their Print Assumptions.
+
+   Hypotheses to read with the one-line summaries (they are part of the statements below):
+   * "token held while running" is about functions with `live s c = true`, i.e. whose call future is not cancelled
+     (not abandoned, caller not natively cancelled);
+   * "running <= total" holds WHENEVER borrowed <= total at that moment (no sticky "never lowered" guard; the total may
+     have been lowered and raised any number of times: C14_no_grant_while_full, C14_running_le_total_after_drain);
+   * "a result is dropped only if abandoned and cancelled" carries the disjunct `\/ ncr = true`: or the caller was
+     natively cancelled (asyncio Task.cancel()) inside the call scope;
+   * "cancellation is deferred when not abandoned" is about AnyIO cancellation and has the hypothesis `ncr = false`
+     (no native cancellation of the caller inside the call scope); the whole `ncr = false` /
+     `no_native_cancel_while_running` family is the documented scope "AnyIO shields do not stop Task.cancel()", with
+     C14_native_cancel_defeats_non_abandon as the refutation without it;
+   * "an abandoned thread's from_thread.run() coroutine never spins" is NOT a theorem: the model only says it is not
+     cancelled (C14_from_thread_run_spec); not spinning is observed by the harness on real threads (F42 regression).
+   Non-vacuity Examples with content are in boundary/ThreadsProofs.v (ex_nonabandon_bound_tight: a non-abandon function
+   executing at the end with borrowed = total; ex_no_grant_while_overfull: lowered total, a release, the waiter is not
+   admitted until the excess has drained). *)
 From AV Require Import Base Threads ThreadsProofs.
 
-(* a non-abandoned function that is executing runs under a limiter token held by its (still waiting) caller *)
+(* a function that is executing and whose call future is not cancelled (`live s c = true`: not abandoned, caller not
+   natively cancelled) runs under a limiter token held by its (still waiting) caller *)
 Theorem C14_token_held_while_running : forall tot pr s c,
   reach tot pr s -> In c (exec s) -> live s c = true ->
   In c (lb s) /\ exists w, wk s w = WExec c /\ ph (calls s c) = PAwait w.
 Proof. exact rs_token_held_while_running. Qed.
 Print Assumptions C14_token_held_while_running.
 
-(* bounded threads: #(executing functions whose caller still waits) <= #borrowed tokens, and <= total whenever the
-   limiter is not over-full.  (No sticky "total was never lowered" guard: see C14_no_grant_while_full.) *)
+(* bounded threads: #(executing functions whose caller still waits) <= #borrowed tokens, and <= total whenever
+   borrowed <= total at that moment (the limiter is not over-full); see C14_no_grant_while_full for why it can only be
+   over-full transiently after total_tokens was lowered below the number of borrowers *)
 Theorem C14_running_le_total : forall tot pr s,
   reach tot pr s ->
   length (running_live s) <= length (lb s) /\
@@ -164,7 +183,9 @@ Theorem C14_call_scope_itself_is_blind : forall l, walk ((false, true) :: l) = f
 Proof. exact walk_call_scope_shielded. Qed.
 Print Assumptions C14_call_scope_itself_is_blind.
 
-(* from_thread.run(coro) with a coroutine that really waits, called from the thread: its task is cancelled iff the scope
+(* (clause 1 is the definition of the op read back; the content is in clauses 2-4 and in the correspondence of
+   RunAsyncCall with real threads.  "Never spins" is harness-observed only.)
+   from_thread.run(coro) with a coroutine that really waits, called from the thread: its task is cancelled iff the scope
    handed to the worker or one of its VISIBLE ancestors is cancelled.  Caller inside the call scope: same answer as
    check_cancelled (so under a cancelled uninterruptible caller the round trip raises CancelledError instead of
    returning the value).  Abandoned thread whose caller has left (F42 / 1940035): never cancelled, although
